@@ -23,6 +23,7 @@ Step(e) ==
        \/ e.op = "escape" /\ Escape(e.b, e.d)
        \/ e.op = "bounce" /\ Bounce(e.b, e.d)
        \/ e.op = "release" /\ Release(e.d)
+       \/ e.op = "broken" /\ Broken(e.d)
        \/ e.op = "request" /\ Request
        \/ /\ e.op = "rest" /\ Quiet /\ UNCHANGED vars
           \* C04: at rest every count equals the physical truth and they sum to the balls known
@@ -30,10 +31,13 @@ Step(e) ==
           /\ e.m.pf = Cardinality(In("pf")) /\ e.known = Cardinality(Balls)
           \* C05: every device back to idle, every request served if a ball was available, nothing pending
           \* (a device may keep waiting for a ball only for a request no ball exists for)
-          /\ (e.idle \/ (want > Avail /\ SeqToSet(e.states) \subseteq {"idle", "waiting_for_ball"}))
+          \* C05: a device that has given up (state eject_broken) must have said so; once a device is broken the remaining
+          \* requests may be unservable, so idle / delivery are only demanded while no device is broken
+          /\ \A i \in DOMAIN e.states : e.states[i] = "eject_broken" => e.devs[i] \in broken
+          /\ (broken # {} \/ e.idle \/ (want > Avail /\ SeqToSet(e.states) \subseteq {"idle", "waiting_for_ball"}))
           \* (a ball more than requested on the playfield is not what either statement forbids: reported as an
           \*  observation by the driver, not judged here)
-          /\ Cardinality(In("pf")) >= Served
+          /\ (broken # {} \/ Cardinality(In("pf")) >= Served)
 TNext == l <= Len(TL) /\ Step(TL[l]) /\ l' = l + 1 /\ UNCHANGED tid
 TSpec == TInit /\ [][TNext]_tvars
 Reporter == TraceReport(tid, l, Len(TL))
